@@ -375,16 +375,18 @@ func c01NeighbourHistory(c *Ctx) {
 		for _, n := range gen.NeighbourKeyLengths {
 			keys := gen.NeighbourKeys(rng, n)
 			ctr := gen.Counter(rng)
-			d, a := uint8(1+rng.Intn(10)), uint8(rng.Intn(3))
-			call := func(k []byte) {
-				judgeHOTP(c, hotpCase{KeyHex: hexs(k), Secret: ref.Base32EncodeNoPad(k), Counter: ctr, Digits: d, Algo: a})
-				c.R.Count("neighbour_key_history_calls", 1)
-			}
-			for _, v := range keys[1:] {
+			for a := uint8(0); a < 3; a++ { // every hash: what makes two keys neighbours depends on the hash's block size
+				d := uint8(1 + rng.Intn(10))
+				call := func(k []byte) {
+					judgeHOTP(c, hotpCase{KeyHex: hexs(k), Secret: ref.Base32EncodeNoPad(k), Counter: ctr, Digits: d, Algo: a})
+					c.R.Count("neighbour_key_history_calls", 1)
+				}
+				for _, v := range keys[1:] {
+					call(keys[0])
+					call(v)
+				}
 				call(keys[0])
-				call(v)
 			}
-			call(keys[0])
 		}
 	}
 }
